@@ -23,6 +23,7 @@ func init() {
 			"R4": "refusal guard: seat-id stores dominated by active count ≥ 2; refusals only under active count < 2 or unsupported rule",
 			"R5": "scan-helper shape: offsets 1..MaxSeat-1, first match of exactly its predicate, unset otherwise",
 			"R6": "eligibility definition and active-count definition",
+			"R7": "first positions: BB = chosen active seat; heads-up dealer = SB = the other active seat; otherwise SB = previous active seat of the new BB and dealer = previous active seat of the new SB; short deck dealer = chosen seat",
 		},
 		Assumptions: []string{"seat ids are 0..MaxSeat-1 (constructor)"},
 		Run:         checkC04,
@@ -576,6 +577,118 @@ func checkC04(c *Ctx) {
 		}
 		z, isZ := ss.Val.ConstInt()
 		c.Check(isShort(p.Guards(ss.Instr)) && isZ && z == -1, "R2", "other-store:"+ss.Field+"@"+branchOf(p, ss), p.InstrPos(ss.Instr), "short deck clears SB/BB", "unexpected seat-id store "+ss.Addr.String()+" = "+ss.Val.String())
+	}
+
+	// ---------------- R7 first positions
+	initW := p.Method(smT, "InitPositions")
+	var initFn *ssa.Function
+	if initW != nil {
+		for _, ci := range Calls(initW) {
+			if sc := ci.Common().StaticCallee(); sc != nil && inSeatManagerPkg(p, sc) && errResultIndex(sc.Signature) >= 0 && sc != rot {
+				for _, ss := range p.Stores([]*ssa.Function{sc}) {
+					if seatW.Direct(p, ss.Instr) {
+						initFn = sc
+					}
+				}
+			}
+		}
+	}
+	if initFn == nil {
+		c.Bad("R7", "init-positions", "-", "initial positioning function not found")
+		return
+	}
+	var istores []*StoreSite
+	for _, ss := range p.Stores([]*ssa.Function{initFn}) {
+		if seatW.Direct(p, ss.Instr) {
+			istores = append(istores, ss)
+		}
+	}
+	c.Min("R7", "seat-id stores in the initial positioning", len(istores), 8)
+	isFirstSeat := func(v *Sym) bool {
+		// the seat chosen first: result #0 of the first/random occupied-seat helpers (active seats only)
+		ok := true
+		n := 0
+		v.Walk(func(x *Sym) bool {
+			switch x.Kind {
+			case "phi":
+				return true
+			case "extract":
+				n++
+				if !(x.Name == "0" && x.Args[0].Strip().Kind == "call" && x.Args[0].Strip().Call.Common().StaticCallee() != nil && inSeatManagerPkg(p, x.Args[0].Strip().Call.Common().StaticCallee())) {
+					ok = false
+				}
+				return false
+			default:
+				ok = false
+				return false
+			}
+		})
+		return ok && n >= 1
+	}
+	itiming := func(v *Sym, field string) string {
+		v = v.Strip()
+		if !v.IsField("seatManager", field) {
+			return "other"
+		}
+		ld, ok := v.V.(ssa.Instruction)
+		if !ok {
+			return "other"
+		}
+		for _, ss := range istores {
+			if ss.Field == field && isDefault(p.Guards(ss.Instr)) && Dominates(ss.Instr, ld) {
+				return "new"
+			}
+		}
+		return "old"
+	}
+	for _, ss := range istores {
+		gs := p.Guards(ss.Instr)
+		where := p.InstrPos(ss.Instr)
+		key := "init:" + ss.Field + "@" + branchOf(p, ss)
+		c.Check(atLeast2(gs), "R7", key+":guard", where, "dominated by active count ≥ 2", "an initial seat id is set without at least two active players")
+		two, isTwo := exactly2(gs)
+		v := ss.Val.Strip()
+		d := ""
+		switch {
+		case isShort(gs):
+			if ss.Field == "DealerSeatID" {
+				if !isFirstSeat(ss.Val) {
+					d = "short-deck dealer is " + v.String() + ", not the chosen first seat"
+				}
+			} else if z, isZ := v.ConstInt(); !isZ || z != -1 {
+				d = "short deck sets " + ss.Field + " to " + v.String()
+			}
+		case ss.Field == "BBSeatID":
+			if !isFirstSeat(ss.Val) {
+				d = "initial big blind is " + v.String() + ", not the chosen first (active) seat"
+			}
+		case two && isTwo:
+			// heads-up: dealer = SB = the other active seat
+			other := v.Kind == "rangekey" && v.Args[0].Strip().IsField("seatManager", "SeatData") &&
+				guardedBy(gs, true, func(x *Sym) bool { return x.IsCall("SeatPlayer.Active") && x.Args[0].Strip().Kind == "rangeval" }) &&
+				cmpHolds(gs, func(l, r *Sym, op token.Token) bool {
+					return op == token.NEQ && (l.Strip().Kind == "rangekey" && isFirstSeat(r) || r.Strip().Kind == "rangekey" && isFirstSeat(l))
+				})
+			if !other {
+				d = "heads-up " + ss.Field + " is " + v.String() + ", not the other active seat"
+			}
+		case two && !isTwo:
+			k, a := helperCall(ss.Val)
+			shouldActive := false
+			if v.Kind == "call" && len(v.Args) == 3 {
+				shouldActive, _ = v.Args[2].ConstBool()
+			}
+			if !(len(k) > 5 && k[:5] == "prev{" && shouldActive) {
+				d = ss.Field + " is " + v.String() + ", not the previous active seat"
+			} else if ss.Field == "SBSeatID" && itiming(a, "BBSeatID") != "new" {
+				d = "initial small blind is not searched backwards from the new big blind"
+			} else if ss.Field == "DealerSeatID" && itiming(a, "SBSeatID") != "new" {
+				d = "initial dealer is not searched backwards from the new small blind"
+			}
+		default:
+			d = "seat id stored in an unrecognised branch"
+		}
+		c.Check(d == "", "R7", key, where, "as specified", d)
 	}
 }
 
